@@ -2,14 +2,17 @@ package props
 
 import (
 	"fmt"
+	"net"
 	"time"
 
+	defn "github.com/named-data/ndnd/fw/defn"
 	"github.com/named-data/ndnd/fw/face"
 	enc "github.com/named-data/ndnd/std/encoding"
 	mgmt "github.com/named-data/ndnd/std/ndn/mgmt_2022"
 	spec "github.com/named-data/ndnd/std/ndn/spec_2022"
 
 	"verif/internal/h"
+	"verif/internal/tlvwalk"
 )
 
 // ---- C09, face life cycle inside a traffic history: faces/destroy takes a face out of the face
@@ -143,5 +146,78 @@ func c09Lifecycle(c *h.Ctx) {
 		}
 		c.Count("lifecycle_rounds", 1)
 		c.Distinct(fmt.Sprintf("lifecycle|new-local-faces=%d", len(fresh)))
+	}
+	c09UDPAccept(c, d, prod, waitFor)
+}
+
+// c09UDPAccept: the forwarder's real UDP listener accepts new peers: per round a peer on the
+// loopback address (a local face) and a peer on this host's non-loopback address (a non-local
+// face) send their first datagrams - /localhost Interests of equal length - back to back. The
+// local peer's Interest must reach the local producer, the non-local peer's must not.
+func c09UDPAccept(c *h.Ctx, d *c17Daemon, prod *c17Face, waitFor func(*c17Face, enc.Name, bool, *[][]byte) bool) {
+	host := ""
+	if as, err := net.InterfaceAddrs(); err == nil {
+		for _, a := range as {
+			if ipn, ok := a.(*net.IPNet); ok && ipn.IP.To4() != nil && !ipn.IP.IsLoopback() {
+				host = ipn.IP.String()
+				break
+			}
+		}
+	}
+	if host == "" {
+		c.Note("udp_accept", "this host has no non-loopback IPv4 address: the UDP listener scenario did not run")
+		return
+	}
+	probe, err := net.ListenPacket("udp4", "0.0.0.0:0")
+	if err != nil {
+		c.Note("udp_accept", "cannot find a free UDP port: "+err.Error())
+		return
+	}
+	port := probe.LocalAddr().(*net.UDPAddr).Port
+	probe.Close()
+	ln, err := face.MakeUDPListener(defn.MakeUDPFaceURI(4, "0.0.0.0", uint16(port)))
+	if err != nil {
+		c.Note("udp_accept", "cannot make the UDP listener: "+err.Error())
+		return
+	}
+	go ln.Run()
+	defer ln.Close()
+	time.Sleep(50 * time.Millisecond)
+	for k := 0; k < c.Pick(30, 300); k++ {
+		id := fmt.Sprintf("lifecycle/udp%d", k)
+		c.Eval(1)
+		la, err1 := net.DialUDP("udp4", &net.UDPAddr{IP: net.ParseIP("127.0.0.1")}, &net.UDPAddr{IP: net.ParseIP("127.0.0.1"), Port: port})
+		lb, err2 := net.DialUDP("udp4", &net.UDPAddr{IP: net.ParseIP(host)}, &net.UDPAddr{IP: net.ParseIP(host), Port: port})
+		if err1 != nil || err2 != nil {
+			c.Note("udp_accept", fmt.Sprintf("cannot open the peers' sockets: %v %v", err1, err2))
+			return
+		}
+		na, _ := enc.NameFromStr(fmt.Sprintf("/localhost/c09p/udp-local-%04d", k))
+		nb, _ := enc.NameFromStr(fmt.Sprintf("/localhost/c09p/udp-remot-%04d", k))
+		wa, wb := tlvwalk.TLV(5, d.interestBody(na, false)), tlvwalk.TLV(5, d.interestBody(nb, false))
+		d.log = append(d.log, fmt.Sprintf("%s: new UDP peers %s (loopback) and %s (non-loopback) send first datagrams %s / %s", id, la.LocalAddr(), lb.LocalAddr(), na, nb))
+		var keep [][]byte
+		if k%2 == 0 {
+			la.Write(wa)
+			lb.Write(wb)
+		} else {
+			lb.Write(wb)
+			la.Write(wa)
+		}
+		c.Count("udp_first_datagram_pairs", 1)
+		okA := waitFor(prod, na, false, &keep)
+		time.Sleep(10 * time.Millisecond)
+		sawB := c09Saw(prod, nb, false, &keep)
+		la.Close()
+		lb.Close()
+		if sawB {
+			d.fail("C09:localhost-interest-accepted-from-nonlocal:udp-first-datagram", id, fmt.Sprintf("the /localhost Interest %s sent as first datagram by the non-loopback UDP peer %s was forwarded to the local producer", nb, lb.LocalAddr()), map[string]any{"commands": d.log[max(0, len(d.log)-6):]})
+			return
+		}
+		if !okA {
+			d.fail("C09:local-localhost-exchange-broken", id, fmt.Sprintf("the /localhost Interest %s sent as first datagram by the loopback UDP peer %s never reached the local producer", na, la.LocalAddr()), map[string]any{"commands": d.log[max(0, len(d.log)-6):]})
+			return
+		}
+		c.Distinct("lifecycle|udp-accept")
 	}
 }
